@@ -63,3 +63,47 @@ class NoTracing:
         if self._ctx is not None:
             return self._ctx.__exit__(*a)
         return False
+
+
+def _deep_concrete(x, depth=0):
+    t = type(x)
+    if t in (int, bool, float, str, type(None)):
+        return True
+    if t in (list, tuple, set, frozenset):
+        return all(_deep_concrete(y, depth + 1) for y in x)
+    if t is dict:
+        return all(_deep_concrete(k, depth + 1) and _deep_concrete(v, depth + 1) for k, v in x.items())
+    return False
+
+
+def native(fn, *args):
+    """Call fn(*args) natively (outside the tracer) after checking, natively, that every
+    argument is a genuinely concrete builtin value - a symbolic proxy can never leak in."""
+    with NoTracing():
+        if not _deep_concrete(args):
+            raise TypeError("native(): symbolic value passed to a native segment: %r" % (args,))
+        return fn(*args)
+
+
+def rgs_patterns(n):
+    """All restricted-growth strings of length n (set partitions), in a fixed order."""
+    out = []
+
+    def rec(prefix, mx):
+        if len(prefix) == n:
+            out.append(tuple(prefix))
+            return
+        for c in range(mx + 2):
+            rec(prefix + [c], max(mx, c))
+    rec([], -1)
+    return out
+
+
+_RGS = {}
+
+
+def pattern_index(pat):
+    n = len(pat)
+    if n not in _RGS:
+        _RGS[n] = {p: i for i, p in enumerate(rgs_patterns(n))}
+    return _RGS[n][tuple(pat)]
